@@ -145,9 +145,11 @@ def run_schedule(schedule):
                 for t in set(asyncio.all_tasks()) - before:
                     tasks[t] = idx
             elif ev[0] == "factory":
+                pending_factory[:] = [f for f in pending_factory if not f.done()]
                 if pending_factory:
                     pending_factory.pop(0).set_result(None)
             elif ev[0] == "drain":
+                pending_drains[:] = [x for x in pending_drains if not x[1].done()]   # (a drain may have been cancelled)
                 if pending_drains:
                     k = ev[1] % len(pending_drains)
                     pending_drains.pop(k)[1].set_result(None)
@@ -158,9 +160,13 @@ def run_schedule(schedule):
         # let everything finish: complete all latencies
         for _ in range(60):
             if pending_factory:
-                pending_factory.pop(0).set_result(None)
+                f = pending_factory.pop(0)
+                if not f.done():
+                    f.set_result(None)
             elif pending_drains:
-                pending_drains.pop(0)[1].set_result(None)
+                fut = pending_drains.pop(0)[1]
+                if not fut.done():
+                    fut.set_result(None)
             else:
                 break
             await settle()
